@@ -91,7 +91,7 @@ func idOf(root *simrt.Inode, abs string) (fileID, bool) {
 var profC02 = Profile{
 	MaxProcs: 5, MaxItems: 3, Bufsizes: []int{0, 1, 2}, MaxSlots: 4,
 	Params: true, MultiOut: true, FanIn: true, FanOut: true, NoPort: true, Custom: true,
-	Subdirs: true, Cores: true, TwoSources: true, Zip: true, ParamSrc: true, EmptyOuts: true,
+	Subdirs: true, Cores: true, TwoSources: true, Zip: true, ParamSrc: true, EmptyOuts: true, Joins: true,
 }
 
 func init() {
@@ -111,6 +111,13 @@ func init() {
 						defaultPaths = false
 					}
 					seenBase[baseName(p)] = true
+				}
+				for _, n := range w.Nodes {
+					if n.Kind == KStreamToSub {
+						// (the default name of a joining task's output derives from the random
+						// temp path of the sub-stream carrier: nobody can use default names there)
+						defaultPaths = false
+					}
 				}
 				if defaultPaths {
 					// scipipe's default output names (no SetOut): the second run must
@@ -295,7 +302,7 @@ func keysOf(m map[string][]byte) []string {
 var profC01 = Profile{
 	MaxProcs: 4, MaxItems: 3, Bufsizes: []int{0, 1, 2}, MaxSlots: 4,
 	Params: true, MultiOut: true, FanIn: true, FanOut: true, Custom: true, CustomIdiom: true,
-	Subdirs: true, ParentAbs: true, Extras: true, Cores: true, Zip: true, EmptyOuts: true,
+	Subdirs: true, ParentAbs: true, Extras: true, Cores: true, Zip: true, EmptyOuts: true, Joins: true,
 }
 
 // atomicState checks one file-system state against the atomicity property.
